@@ -75,6 +75,25 @@ func c18ForgeRun(fc *C18Forge) (*c16Violation, map[string]bool) {
 		failed = true
 	case <-time.After(1500 * time.Millisecond):
 	}
+	if !failed {
+		// not yet: a loaded machine gets more time before "the connection was kept" is believed (a
+		// client that really keeps the connection keeps it however long one waits)
+		deadline := time.Now().Add(8 * time.Second)
+		for !failed && time.Now().Before(deadline) {
+			select {
+			case <-tc.runDone:
+				failed = true
+			case <-time.After(50 * time.Millisecond):
+			}
+			for _, sc := range srv.connections() {
+				select {
+				case <-sc.done:
+					failed = true
+				default:
+				}
+			}
+		}
+	}
 	accepted := tc.c.IsAccepted(srvQuietCtx())
 	ev1, ev2 := tc.h1.snapshot(), tc.h2.snapshot()
 	if !failed {
@@ -110,7 +129,7 @@ func c18ForgeRun(fc *C18Forge) (*c16Violation, map[string]bool) {
 		return &c16Violation{"C18/forged-accept/data-reached-handlers", fmt.Sprintf("after a forged accept (%s) handlers received %d notifications (first: %s)", fc.Forge, len(ev1)+len(ev2), append(ev1, ev2...)[0].kind)}, flags
 	}
 	if !failed {
-		return &c16Violation{"C18/forged-accept/connection-kept", fmt.Sprintf("after a forged accept (%s) neither did Run return nor was the connection closed within 1.5 s", fc.Forge)}, flags
+		return &c16Violation{"C18/forged-accept/connection-kept", fmt.Sprintf("after a forged accept (%s) neither did Run return nor was the connection closed within 9.5 s", fc.Forge)}, flags
 	}
 	for i := range hashes {
 		for j := i + 1; j < len(hashes); j++ {
@@ -405,7 +424,7 @@ func TestC18Forged(t *testing.T) {
 			tc, err := newTestClient(srv.addr(), ConnectionTypeFull, 300*time.Millisecond, true)
 			if err == nil {
 				ok := false
-				for i := 0; i < 300 && !ok; i++ {
+				for i := 0; i < 3000 && !ok; i++ {
 					ok = tc.c.IsAccepted(srvQuietCtx())
 					time.Sleep(5 * time.Millisecond)
 				}
